@@ -704,10 +704,23 @@ theorem fullyLoad_shallow (g : Glyph) (l : List PenRec) (h : g.shallow = some l)
 
 theorem newGlyph_fresh (disp : Bool) : (Layer.newGlyph disp).Fresh := ⟨rfl, rfl, rfl, rfl, rfl, rfl, rfl⟩
 
+theorem glyphAdded_eq (ly : Layer) :
+    ly.glyphAdded =
+      { ly with ucache := if ly.disp && ly.peekAt.contains ly.glyphs.length
+                          then some (ly.ucache.getD (cmapOfGlyphs ly.glyphs)) else ly.ucache } := by
+  unfold Layer.glyphAdded Layer.readUnicodeData Layer.unicodeData
+  split <;> rfl
+
+theorem rebuiltEntry_fst (disp : Bool) (ng : Val × Glyph) : (Layer.rebuiltEntry disp ng).1 = ng.1 := rfl
+theorem rebuiltEntry_unicodes (disp : Bool) (ng : Val × Glyph) :
+    (Layer.rebuiltEntry disp ng).2.unicodes = ng.2.unicodes := rfl
+
 theorem setGlyph_ser (ly : Layer) (n : Val) (g : Glyph) (hw : g.DictsWF) (hn : n ∉ AL.keys ly.glyphs) :
     ly.setGlyph n (g.ser none none) =
-      { ly with glyphs := ly.glyphs ++ [Layer.rebuiltEntry ly.disp (n, g)],
-                err := orErr ly.err g.rebuildError } := by
+      Layer.glyphAdded
+        { ly with glyphs := ly.glyphs ++ [Layer.rebuiltEntry ly.disp (n, g)],
+                  err := orErr ly.err g.rebuildError,
+                  ucache := cacheInsert ly.ucache n g.unicodes } := by
   unfold Layer.setGlyph
   have : ({ parent := true, disp := ly.disp } : Glyph) = Layer.newGlyph ly.disp := rfl
   rw [this, glyph_rebuild g _ (newGlyph_fresh _) hw]
@@ -718,9 +731,10 @@ theorem setGlyph_fold (gs : List (Val × Glyph)) (ly : Layer) (hn : (AL.keys ly.
     (hw : ∀ ng ∈ gs, ng.2.DictsWF) :
     (gs.map (fun p => (p.1, p.2.ser none none))).foldl (fun (ly : Layer) p => ly.setGlyph p.1 p.2) ly =
       { ly with glyphs := ly.glyphs ++ gs.map (Layer.rebuiltEntry ly.disp),
-                err := gs.foldl (fun e ng => orErr e ng.2.rebuildError) ly.err } := by
+                err := gs.foldl (fun e ng => orErr e ng.2.rebuildError) ly.err,
+                ucache := cacheAlong ly.disp ly.peekAt ly.glyphs ly.ucache (gs.map (Layer.rebuiltEntry ly.disp)) } := by
   induction gs generalizing ly with
-  | nil => simp
+  | nil => simp [cacheAlong]
   | cons ng gs ih =>
     obtain ⟨n, g⟩ := ng
     simp only [List.map_cons, List.foldl_cons]
@@ -728,8 +742,8 @@ theorem setGlyph_fold (gs : List (Val × Glyph)) (ly : Layer) (hn : (AL.keys ly.
       rw [List.nodup_append] at hn
       intro hm
       exact hn.2.2 n hm n (by simp [AL.keys]) rfl
-    rw [setGlyph_ser ly n g (hw (n, g) (by simp)) hn1, ih]
-    · simp
+    rw [setGlyph_ser ly n g (hw (n, g) (by simp)) hn1, glyphAdded_eq, ih]
+    · simp [cacheAlong, rebuiltEntry_fst, rebuiltEntry_unicodes]
     · simp only [AL.keys, List.map_append, List.map_cons, List.map_nil, Layer.rebuiltEntry]
       rw [List.append_assoc]
       simpa [AL.keys] using hn
@@ -762,27 +776,27 @@ theorem layer_rebuild (ly t : Layer) (ht : t.Fresh) (hw : ly.WF) :
 
 /-! ### LayerSet -/
 
-theorem newLayer_fresh (disp : Bool) (n : Val) : (LayerSet.newLayer disp n).Fresh := ⟨rfl, rfl⟩
+theorem newLayer_fresh (disp : Bool) (pk : List Nat) (n : Val) : (LayerSet.newLayer disp pk n).Fresh := ⟨rfl, rfl⟩
 
 theorem addLayer_ser (t : LayerSet) (n : Val) (ly : Layer) (D : Val) (hw : ly.WF) (hn : n ∉ AL.keys t.layers) :
     t.addLayer (n, ly.ser none none, decide (n = D)) =
-      { t with layers := t.layers ++ [LayerSet.rebuiltEntry t.disp (n, ly)],
+      { t with layers := t.layers ++ [LayerSet.rebuiltEntry t.disp t.peekAt (n, ly)],
                default := if n = D then n else t.default,
-               err := orErr t.err (LayerSet.rebuiltEntry t.disp (n, ly)).2.err } := by
+               err := orErr t.err (LayerSet.rebuiltEntry t.disp t.peekAt (n, ly)).2.err } := by
   unfold LayerSet.addLayer
   have hc : AL.contains t.layers n = false := by
     rw [AL.contains_false_iff]; exact AL.get?_eq_none_of_not_mem hn
   simp only [hc, Bool.false_eq_true, ↓reduceIte]
-  have : ({ name := n, parent := true, observed := t.disp, disp := t.disp } : Layer) = LayerSet.newLayer t.disp n := rfl
-  rw [this, layer_rebuild ly _ (newLayer_fresh _ _) hw]
+  have : ({ name := n, parent := true, observed := t.disp, disp := t.disp, peekAt := t.peekAt } : Layer) = LayerSet.newLayer t.disp t.peekAt n := rfl
+  rw [this, layer_rebuild ly _ (newLayer_fresh _ _ _) hw]
   simp [LayerSet.rebuiltEntry]
 
 theorem addLayer_fold (ls0 : List (Val × Layer)) (D : Val) (t : LayerSet)
     (hn : (AL.keys t.layers ++ AL.keys ls0).Nodup) (hw : ∀ nl ∈ ls0, nl.2.WF) :
     (ls0.map (fun p => (p.1, p.2.ser none none, decide (p.1 = D)))).foldl LayerSet.addLayer t =
-      { t with layers := t.layers ++ ls0.map (LayerSet.rebuiltEntry t.disp),
+      { t with layers := t.layers ++ ls0.map (LayerSet.rebuiltEntry t.disp t.peekAt),
                default := ls0.foldl (fun d p => if p.1 = D then p.1 else d) t.default,
-               err := ls0.foldl (fun e nl => orErr e (LayerSet.rebuiltEntry t.disp nl).2.err) t.err } := by
+               err := ls0.foldl (fun e nl => orErr e (LayerSet.rebuiltEntry t.disp t.peekAt nl).2.err) t.err } := by
   induction ls0 generalizing t with
   | nil => simp
   | cons nl r ih =>
@@ -839,7 +853,7 @@ theorem ff_groups (d : Dict) : Font.setField "groups" (.dict d) f = { f with gro
 theorem ff_images (d : Dict) : Font.setField "images" (.dict d) f = { f with images := newFileSet d } := rfl
 theorem ff_info (d : Dict) : Font.setField "info" (.dict d) f = { f with info := Info.deser d (wired f.info) } := rfl
 theorem ff_kerning (d : Dict) : Font.setField "kerning" (.dict d) f = { f with kerning := updateWired f.kerning d } := rfl
-theorem ff_layers (d) : Font.setField "layers" (.layers d) f = { f with layers := newLayerSet d } := rfl
+theorem ff_layers (d) : Font.setField "layers" (.layers d) f = { f with layers := newLayerSet f.layers.peekAt d } := rfl
 theorem ff_lib (d : Dict) : Font.setField "lib" (.dict d) f = { f with lib := updateWired f.lib d } := rfl
 theorem ff_tempLib (d : Dict) : Font.setField "tempLib" (.dict d) f =
     { f with tempLib := ({ f.tempLib with parent := true }).deser d } := rfl
@@ -864,8 +878,9 @@ theorem features_rebuild (f t : Features) :
     Features.deser (f.ser none none) t = { t with text := f.text } := by
   simp [Features.deser, Features.ser, get?_serializeWith, featuresGetters, excluded_none, Features.getField]
 
-theorem newLayerSet_ser (ls : LayerSet) (hw : ls.WF) :
-    newLayerSet (ls.ser none none) = LayerSet.rebuiltFrom ls { parent := true, observed := true, disp := true } := by
+theorem newLayerSet_ser (pk : List Nat) (ls : LayerSet) (hw : ls.WF) :
+    newLayerSet pk (ls.ser none none) =
+      LayerSet.rebuiltFrom ls { parent := true, observed := true, disp := true, peekAt := pk } := by
   unfold newLayerSet
   exact layerSet_rebuild ls _ ⟨rfl, rfl, rfl⟩ hw
 
@@ -891,7 +906,7 @@ theorem font_rebuild (f t : Font) (ht : t.Fresh) (hw : f.WF) :
   subst h1 h2
   simp only [ff_fmt, ff_maps, ff_data, ff_features, ff_groups, ff_images, ff_info, ff_kerning, ff_layers, ff_lib,
     ff_tempLib, ff_guidelines, map_ser_dicts _ hw.guidelines, font_setGuidelines,
-    newFileSet_ser _ hw.data, newFileSet_ser _ hw.images, features_rebuild, newLayerSet_ser _ hw.layers,
+    newFileSet_ser _ hw.data, newFileSet_ser _ hw.images, features_rebuild, newLayerSet_ser _ _ hw.layers,
     updateWired_ser _ _ hw.groups, updateWired_ser _ _ hw.kerning, updateWired_ser _ _ hw.lib,
     dictObj_ser _ hw.tempLib]
   simp [Font.rebuiltFrom, DictObj.deser, dictUpdate_nil _ hw.tempLib]
@@ -1171,7 +1186,7 @@ theorem layer_rebuiltFrom_obsEq (ly t : Layer) (hw : ly.WF) : (Layer.rebuiltFrom
 theorem layerSet_rebuiltFrom_obsEq (ls t : LayerSet) (hw : ls.WF) (hd : ls.default ∈ AL.keys ls.layers ∨ ls.default = pyNone) :
     (LayerSet.rebuiltFrom ls t).ObsEq ls := by
   refine ⟨?_, ?_⟩
-  · show ListRel _ (ls.layers.map (LayerSet.rebuiltEntry t.disp)) ls.layers
+  · show ListRel _ (ls.layers.map (LayerSet.rebuiltEntry t.disp t.peekAt)) ls.layers
     apply listRel_map_left
     intro nl hnl
     exact ⟨rfl, layer_rebuiltFrom_obsEq nl.2 _ (hw.layers nl hnl)⟩
@@ -1237,7 +1252,7 @@ theorem layer_rebuiltFrom_err (ly t : Layer) (hn : ly.IdsWF) : (Layer.rebuiltFro
   exact foldl_orErr_none _ _ (fun ng hng => rebuildError_none ng.2 (hn ng hng))
 
 theorem layerSet_rebuiltFrom_err (ls t : LayerSet) (hn : ls.IdsWF) : (LayerSet.rebuiltFrom ls t).err = none := by
-  show ls.layers.foldl (fun e nl => orErr e (LayerSet.rebuiltEntry t.disp nl).2.err) none = none
+  show ls.layers.foldl (fun e nl => orErr e (LayerSet.rebuiltEntry t.disp t.peekAt nl).2.err) none = none
   exact foldl_orErr_none _ _ (fun nl hnl => layer_rebuiltFrom_err nl.2 _ (hn nl hnl))
 
 theorem font_rebuiltFrom_reg (f t : Font) (hn : f.usedIds.Nodup) :
@@ -1253,6 +1268,108 @@ theorem font_rebuiltFrom_error (f t : Font) (hg : f.layers.IdsWF) (hn : f.usedId
   have : (Font.rebuiltFrom f t).layers.err = none := layerSet_rebuiltFrom_err f.layers _ hg
   rw [this]
   rfl
+
+/-! ### the unicode data of a rebuilt layer -/
+
+theorem cmapOfGlyphs_append (a b : List (Val × Glyph)) : cmapOfGlyphs (a ++ b) = cmapOfGlyphs a ++ cmapOfGlyphs b := by
+  simp [cmapOfGlyphs]
+
+theorem cmapOfGlyphs_single (ng : Val × Glyph) :
+    cmapOfGlyphs [ng] = if hasUnicodes ng.2.unicodes then [(ng.1, ng.2.unicodes)] else [] := by
+  unfold cmapOfGlyphs
+  split <;> simp [*]
+
+/-- `_insertGlyph` keeps an existing unicode-data object right (and leaves a missing one missing) -/
+theorem cacheInsert_ok (seen : List (Val × Glyph)) (c : Option (List (Val × Val))) (ng : Val × Glyph)
+    (h : c = none ∨ c = some (cmapOfGlyphs seen)) :
+    cacheInsert c ng.1 ng.2.unicodes = none ∨
+    cacheInsert c ng.1 ng.2.unicodes = some (cmapOfGlyphs (seen ++ [ng])) := by
+  rw [cmapOfGlyphs_append, cmapOfGlyphs_single]
+  unfold cacheInsert
+  rcases h with rfl | rfl
+  · left; split <;> rfl
+  · right; split <;> simp
+
+/-- … whatever the observers' schedule: along `set_glyphs` the object is missing or says what the glyphs say -/
+theorem cacheAlong_ok (disp : Bool) (pk : List Nat) (rest seen : List (Val × Glyph)) (c : Option (List (Val × Val)))
+    (h : c = none ∨ c = some (cmapOfGlyphs seen)) :
+    cacheAlong disp pk seen c rest = none ∨ cacheAlong disp pk seen c rest = some (cmapOfGlyphs (seen ++ rest)) := by
+  induction rest generalizing seen c with
+  | nil => simpa [cacheAlong] using h
+  | cons ng rest ih =>
+    simp only [cacheAlong]
+    have h1 := cacheInsert_ok seen c ng h
+    have := ih (seen ++ [ng])
+      (if disp && pk.contains (seen ++ [ng]).length
+        then some ((cacheInsert c ng.1 ng.2.unicodes).getD (cmapOfGlyphs (seen ++ [ng])))
+        else cacheInsert c ng.1 ng.2.unicodes)
+      (by
+        split
+        · right
+          rcases h1 with h1 | h1 <;> simp [h1]
+        · exact h1)
+    simpa [List.append_assoc] using this
+
+/-- an object that exists stays (a read never drops it, an insertion never drops it) -/
+theorem cacheAlong_isSome (disp : Bool) (pk : List Nat) (rest seen : List (Val × Glyph)) (c : Option (List (Val × Val)))
+    (h : c.isSome) : (cacheAlong disp pk seen c rest).isSome := by
+  induction rest generalizing seen c with
+  | nil => simpa [cacheAlong] using h
+  | cons ng rest ih =>
+    simp only [cacheAlong]
+    apply ih
+    have h1 : (cacheInsert c ng.1 ng.2.unicodes).isSome := by
+      unfold cacheInsert
+      split <;> simp [h]
+    split
+    · rfl
+    · exact h1
+
+theorem cmapOfGlyphs_rebuilt (disp : Bool) (gs : List (Val × Glyph)) :
+    cmapOfGlyphs (gs.map (Layer.rebuiltEntry disp)) = cmapOfGlyphs gs := by
+  induction gs with
+  | nil => rfl
+  | cons ng gs ih =>
+    have e : ∀ (x : Val × Glyph) (l : List (Val × Glyph)), x :: l = [x] ++ l := fun _ _ => rfl
+    rw [List.map_cons, e _ (gs.map _), e ng gs, cmapOfGlyphs_append, cmapOfGlyphs_append, ih, cmapOfGlyphs_single,
+      cmapOfGlyphs_single, rebuiltEntry_fst, rebuiltEntry_unicodes]
+
+/-- the rebuilt layer's unicode-data object is missing or right … -/
+theorem layer_rebuiltFrom_cacheOK (ly t : Layer) (hc : t.ucache = none ∨ t.ucache = some []) :
+    (Layer.rebuiltFrom ly t).CacheOK := by
+  have := cacheAlong_ok t.disp t.peekAt (ly.glyphs.map (Layer.rebuiltEntry t.disp)) [] t.ucache
+    (by simpa [cmapOfGlyphs] using hc)
+  simpa [Layer.CacheOK, Layer.rebuiltFrom] using this
+
+/-- … so `layer.unicodeData` answers what the ORIGINAL's glyphs say -/
+theorem layer_rebuiltFrom_unicodeData (ly t : Layer) (hc : t.ucache = none ∨ t.ucache = some []) :
+    (Layer.rebuiltFrom ly t).unicodeData = cmapOfGlyphs ly.glyphs := by
+  have h := layer_rebuiltFrom_cacheOK ly t hc
+  have hg : (Layer.rebuiltFrom ly t).glyphs = ly.glyphs.map (Layer.rebuiltEntry t.disp) := rfl
+  unfold Layer.CacheOK at h
+  unfold Layer.unicodeData
+  rcases h with h | h <;> simp [h, hg, cmapOfGlyphs_rebuilt]
+
+theorem layer_rebuiltFrom_built (ly t : Layer) (hc : t.ucache = some []) :
+    (Layer.rebuiltFrom ly t).ucache = some (cmapOfGlyphs ly.glyphs) := by
+  have h := layer_rebuiltFrom_cacheOK ly t (Or.inr hc)
+  have hs : ((Layer.rebuiltFrom ly t).ucache).isSome :=
+    cacheAlong_isSome t.disp t.peekAt _ [] t.ucache (by simp [hc])
+  have hg : (Layer.rebuiltFrom ly t).glyphs = ly.glyphs.map (Layer.rebuiltEntry t.disp) := rfl
+  unfold Layer.CacheOK at h
+  rcases h with h | h
+  · simp [h] at hs
+  · rw [h, hg, cmapOfGlyphs_rebuilt]
+
+theorem layerSet_rebuiltFrom_unicodeData (ls t : LayerSet) :
+    (LayerSet.rebuiltFrom ls t).layers.map (fun nl => (nl.1, nl.2.unicodeData)) =
+      ls.layers.map (fun nl => (nl.1, cmapOfGlyphs nl.2.glyphs)) := by
+  show (ls.layers.map (LayerSet.rebuiltEntry t.disp t.peekAt)).map _ = _
+  rw [List.map_map]
+  apply List.map_congr_left
+  intro nl _
+  show (nl.1, (Layer.rebuiltFrom nl.2 (LayerSet.newLayer t.disp t.peekAt nl.1)).unicodeData) = _
+  rw [layer_rebuiltFrom_unicodeData _ _ (Or.inl rfl)]
 
 
 end Serial
